@@ -198,6 +198,7 @@ class Session:
         self.solo_retries = []
 
     def prepare(self, force_external=None):
+        self.forced = set(force_external or {})
         try:
             sp = splice.Splicer(self.repo, CONTRACTS, force_external=force_external or {}).run()
         except splice.SpliceError as e:
@@ -339,7 +340,7 @@ class Session:
         if other or vr.get("encountered-vir-error"):
             msgs = "; ".join(o["message"][:200] for o in other[:3]) or "vir error"
             where = {o.get("fn") for o in other if not o["message"].startswith("aborting")}
-            if other and None not in where and all(k in self.fns and not getattr(self.fns[k], "unverified", None) for k in where):
+            if other and None not in where and all(k in self.fns and k not in self.forced for k in where):
                 # every complaint lies inside spliced functions: retry once with those functions emitted unverified
                 raise Rejected(sorted(where), msgs)
             raise Undecided("verifier rejected the generated file (construct outside the subset or contract file error): " + msgs)
